@@ -552,7 +552,7 @@ impl WorldCfg {
     /// Execute `hist` on fresh real objects; `obs` sees every step.
     pub fn exec<R>(&self, hist: &[Ev], obs: &mut dyn Observer, finish: impl FnOnce(&mut Run<'_>) -> R) -> R {
         lock_poison_reset();
-        let inst = PtpInstance::<RecFilter, TrackLock>::new(self.node.instance_config(), default_time_properties());
+        let inst = PtpInstance::<RecFilter, TrackLock>::new(self.node.instance_config(), self.node.time_properties());
         let logs: Vec<FilterLog> = (0..self.node.ports.len()).map(|_| Default::default()).collect();
         let l2 = logs.clone();
         let in_key = self.log_in_key;
